@@ -80,7 +80,7 @@ bool polyline::set(const transform &tr, span<const value_store> src)
 	
 	// generate parts data
 	long max = maxsize(src, traits);
-	if (!max || !_vis.set(max)) {
+	if (max <= 0 || !_vis.set(max)) {
 		return false;
 	}
 	const value_store *val = src.begin();
